@@ -363,6 +363,8 @@ func (so *Sorts) prelude(body string) string {
 (assert (forall ((s hv_Str)) (! (>= (hv_strlen s) 0) :pattern ((hv_strlen s)))))
 (assert (forall ((s hv_Str)) (! (=> (= (hv_strlen s) 0) (= s hv_emptystr)) :pattern ((hv_strlen s)))))
 (assert (forall ((a hv_Str) (b hv_Str)) (! (= (hv_strlen (hv_strcat a b)) (+ (hv_strlen a) (hv_strlen b))) :pattern ((hv_strcat a b)))))
+(assert (forall ((b hv_Str)) (! (= (hv_strcat hv_emptystr b) b) :pattern ((hv_strcat hv_emptystr b)))))
+(assert (forall ((a hv_Str)) (! (= (hv_strcat a hv_emptystr) a) :pattern ((hv_strcat a hv_emptystr)))))
 `)
 	}
 	if strings.Contains(body, "hv_sub ") {
